@@ -288,6 +288,36 @@ def make_case(seed_tier):
     return {"seed": seed, "config": config, "history": history, "kinds": kinds, **res}
 
 
+def make_explicit(args):
+    config, history, kinds = args
+    res = run_impl(config, history)
+    return {"seed": None, "config": config, "history": history, "kinds": kinds, **res}
+
+
+ENUM_BASE = {"shapes": [[3], [3]], "mpd": 1024, "merge": False, "ignored_dims": [], "beta1": 0.0, "beta2": 1.0, "graft": False,
+             "f64": False, "pseed": 7}
+
+
+def enum_cases(kind: str, N: int, freq: int, start: int, length: int):
+    """Every history of `length` steps over two single-factor blocks, each block per step absent / present+ok / present+fail."""
+    import itertools
+    config = dict(ENUM_BASE, kind=kind, N=N, freq=freq, start=start)
+    per_step = list(itertools.product((0, 1, 2), repeat=2))
+    for hi, combo in enumerate(itertools.product(per_step, repeat=length)):
+        hist = [{"present": [x != 0 for x in stp], "script": [["raise" if x == 2 else "ok"] for x in stp],
+                 "gseed": 1000 + 17 * t, "poison": [None, None]} for t, stp in enumerate(combo)]
+        yield (config, hist, {"presence": "enumerated", "faults": "enumerated", "nonfinite_results": False, "poison": False})
+
+
+def corpus_cases():
+    d = common.ROOT / "corpus" / "C13"
+    out = []
+    for f in sorted(d.glob("*.json")) if d.exists() else []:
+        o = json.loads(f.read_text())
+        out.append((o["config"], o["history"], {"presence": "corpus", "faults": "corpus", "nonfinite_results": False, "poison": False}))
+    return out
+
+
 def rerun(args):
     config, history = args
     try:
@@ -461,11 +491,19 @@ def run(ck: Check) -> None:
     common.assert_repo_imports()
     ck.coq_props()
     thorough = ck.tier == "thorough"
-    ncases = 5000 if thorough else 420
+    ncases = 8000 if thorough else 500
     seeds = [(ck.rng.randrange(1 << 40), thorough) for _ in range(ncases)]
+    explicit = corpus_cases()
+    ncorpus = len(explicit)
+    if thorough:
+        enum_scopes = [("shampoo", 1, 1, 1, 4), ("soap_qr", 0, 1, 1, 4), ("soap_eigh", 2, 1, 1, 5), ("shampoo", 1, 2, 2, 5)]
+    else:
+        enum_scopes = [("shampoo", 1, 1, 1, 3), ("soap_qr", 0, 1, 1, 3), ("soap_eigh", 1, 1, 2, 3)]
+    for sc in enum_scopes:
+        explicit += list(enum_cases(*sc))
     with mp.get_context("fork").Pool(16) as pool:
-        cases = pool.map(make_case, seeds, chunksize=4)
-        res = eval_cases(ck, "main", [(c["config"], c["nfs"], c["obs"]) for c in cases])
+        cases = pool.map(make_explicit, explicit, chunksize=32) + pool.map(make_case, seeds, chunksize=4)
+        res = eval_cases(ck, "main", [(c["config"], c["nfs"], c["obs"]) for c in cases], per_file=120)
         bad = [(c, r) for c, r in zip(cases, res) if not r[0]]
         beh_fail = [c for c, r in zip(cases, res) if not r[1]]
         cnt_fail = [c for c, r in zip(cases, res) if r[1] and not r[2]]
@@ -516,15 +554,16 @@ def run(ck: Check) -> None:
         if changes and failing:
             mask_and_fail += 1
     smp = []
-    for c in (cases[0], cases[len(cases) // 2], cases[-1]):
+    for c in (cases[ncorpus + 4321 % max(1, len(explicit) - ncorpus)], cases[len(explicit) + ncases // 2], cases[-1]):
         smp.append({"config": {k: c["config"][k] for k in ("kind", "N", "freq", "start", "shapes", "mpd", "ignored_dims")}, "nfs": c["nfs"],
                     "steps": [{"present": "".join("1" if x else "0" for x in o["present_b"]), "routine": o["rout"], "out": o["out"], "counters": o["cnts"]} for o in c["obs"][:8]]})
     ck.coverage.update({
         "evaluations": len(cases),
         "optimizer_steps": steps,
         "distinct_nontrivial": nontriv,
-        "rule": "one evaluation = one seeded (configuration, presence history, fault script) run of the real optimizer compared step by step with the model inside coqc; non-trivial = the run contains an exception or a non-zero failure counter",
+        "rule": "one evaluation = one (configuration, presence history, fault script) run of the real optimizer compared step by step with the model inside coqc; non-trivial = the run contains an exception or a non-zero failure counter. Sources: corpus/C13/*.json, then every history of the enumerated small scopes (two single-factor blocks, each per step absent/ok/fail; (kind,N,freq,start,length) in enumerated_scopes), then seeded random cases",
         "exhaustive": False,
+        "enumerated_scopes": [list(x) for x in enum_scopes], "enumerated_cases": len(explicit) - ncorpus, "corpus_cases": ncorpus, "random_cases": ncases,
         "samples": smp,
         "distribution": {
             "kind": hist(lambda c: c["config"]["kind"]), "N": hist(lambda c: c["config"]["N"]), "freq": hist(lambda c: c["config"]["freq"]),
